@@ -214,7 +214,8 @@ def run(ctx):
     seq = [norm(s) for s in ig.body[:3] if not isinstance(s, ast.Expr) or not isinstance(s.value, ast.Constant)]
     setup_callers = [f for f in cg.callers_of(('group', 'Group.setup'))
                      if any(last_attr(c) == 'setup' for c in calls_in(cg.funcs[f], nested=False))]
-    l5 = seq[:2] == ['group.parameters = self.parameters', 'group.setup()'] and \
+    ig_group = ig.args.args[1].arg
+    l5 = seq[:2] == ['%s.parameters = self.parameters' % ig_group, '%s.setup()' % ig_group] and \
         setup_callers == [('conformation_container', 'ConformationContainer.init_group')]
     ctx.ob('C12.L5', 'setup:parameters-first', l5,
            'init_group assigns group.parameters immediately before group.setup() and is the only '
@@ -223,7 +224,7 @@ def run(ctx):
     ipg = gmod.func('is_protein_group')
     bbc = [r for r in walk_no_nested(ipg) if isinstance(r, ast.Return)
            and isinstance(r.value, ast.Call) and call_name(r.value) == 'BBCGroup']
-    l8 = len(bbc) == 1 and any(p and t == "atom.count_bonded_elements('O') == 1"
+    l8 = len(bbc) == 1 and any(p and t == "%s.count_bonded_elements('O') == 1" % func_params(ipg)[-1]
                                for t, p in fact_texts(bbc[0], ipg))
     bsa = gmod.func('BBCGroup.setup_atoms')
     sia = [c for c in calls_in(bsa, nested=False) if last_attr(c) == 'set_interaction_atoms']
@@ -307,8 +308,8 @@ def run(ctx):
             key = '%s.%s:%s' % (fid[0], fid[1], anorm(node, fn)[:80])
             # a lemma entry is tied to the construct *and* the conditions it sits under
             fcan = canon(fn)
-            under = sorted(('' if p else 'not ') + fcan.text(e) for e, p in facts_at(node, fn))
-            tkey = '%s.%s:%s | under: %s' % (fid[0], fid[1], fcan.text(node, define=True), ' & '.join(under))
+            under = sorted(('' if p else 'not ') + fcan.key(e) for e, p in facts_at(node, fn))
+            tkey = '%s.%s:%s | under: %s' % (fid[0], fid[1], fcan.key(node, define=True), ' & '.join(under))
             if len(tkey) > 330:
                 tkey = tkey[:320] + '~' + hashlib.sha1(tkey.encode()).hexdigest()[:8]
             if why is None and tkey in tri:
@@ -393,7 +394,7 @@ def run(ctx):
                                 for x in (s_.value.left, s_.value.right)):
                         ok = True
             if not ok:
-                key = '%s.%s:%s' % (fid[0], fid[1], canon(fn).text(c, define=True))
+                key = '%s.%s:%s' % (fid[0], fid[1], canon(fn).key(c, define=True))
                 r = tri.get(key)
                 if r is not None:
                     ctx.triage('c12_partial_ops', key)
